@@ -411,6 +411,7 @@ tdigest<T, A> tdigest<T, A>::deserialize(std::istream& is, const A& allocator) {
   const T min = read<T>(is);
   const T max = read<T>(is);
   if (!is.good()) throw std::runtime_error("error reading from std::istream");
+  check_counts(k, num_centroids, num_buffered); // nothing else bounds what is allocated for a stream
   vector_centroid centroids(num_centroids, centroid(0, 0), allocator);
   if (num_centroids > 0) read(is, centroids.data(), num_centroids * sizeof(centroid));
   vector_t buffer(num_buffered, 0, allocator);
@@ -494,6 +495,7 @@ tdigest<T, A> tdigest<T, A>::deserialize_compat(std::istream& is, const A& alloc
     const auto k = static_cast<uint16_t>(read_big_endian<double>(is));
     const auto num_centroids = read_big_endian<uint32_t>(is);
     if (!is.good()) throw std::runtime_error("error reading from std::istream");
+    check_counts(k, num_centroids, 0); // nothing else bounds what is allocated for a stream
     vector_centroid centroids(num_centroids, centroid(0, 0), allocator);
     uint64_t total_weight = 0;
     for (auto& c: centroids) {
@@ -617,10 +619,28 @@ centroids_weight_(weight),
 buffer_(std::move(buffer))
 {
   if (k < 10) throw std::invalid_argument("k must be at least 10");
-  const size_t fudge = k < 30 ? 30 : 10;
-  centroids_capacity_ = 2 * k_ + fudge;
+  centroids_capacity_ = get_centroids_capacity(k_);
   centroids_.reserve(centroids_capacity_);
   buffer_.reserve(centroids_capacity_ * BUFFER_MULTIPLIER);
+}
+
+template<typename T, typename A>
+size_t tdigest<T, A>::get_centroids_capacity(uint16_t k) {
+  const size_t fudge = k < 30 ? 30 : 10;
+  return 2 * k + fudge;
+}
+
+template<typename T, typename A>
+void tdigest<T, A>::check_counts(uint16_t k, uint32_t num_centroids, uint32_t num_buffered) {
+  const size_t centroids_capacity = get_centroids_capacity(k);
+  if (num_centroids > centroids_capacity) {
+    throw std::invalid_argument("Possible corruption: number of centroids " + std::to_string(num_centroids)
+        + " exceeds the capacity " + std::to_string(centroids_capacity) + " for k=" + std::to_string(k));
+  }
+  if (num_buffered > centroids_capacity * BUFFER_MULTIPLIER) {
+    throw std::invalid_argument("Possible corruption: number of buffered values " + std::to_string(num_buffered)
+        + " exceeds the capacity " + std::to_string(centroids_capacity * BUFFER_MULTIPLIER) + " for k=" + std::to_string(k));
+  }
 }
 
 template<typename T, typename A>
